@@ -58,8 +58,9 @@ Lemma wit_quote_obs : subset_json doc_quote Obs [id_o2] = RErr E_VALUE.
 Proof. vm_compute. reflexivity. Qed.
 
 (* ---- F35: observation metadata with a key named "columns" *)
-Lemma wit_mdkey : direct_parse_key doc_mdkey K_COLUMNS = ROk mdkey_columns /\ mdkey_columns = txt """columns"": 1".
-Proof. vm_compute. split; reflexivity. Qed.
+Definition columns_is_1 : text := Eval vm_compute in txt """columns"": 1".       (* the text "columns": 1 *)
+Lemma wit_mdkey : direct_parse_key doc_mdkey K_COLUMNS = ROk columns_is_1.
+Proof. vm_compute. reflexivity. Qed.
 
 (* ---- a stored file: 3 observations x 4 samples, an all-zero row holding a stored zero,
    unsorted indices in both orientations, an all-zero column, observation metadata only *)
